@@ -238,12 +238,88 @@ def _tail_inlined(ctx, f):
 
 
 def _returned_dict(f):
+    """{constant key: value expression} of the mapping the function returns:
+    a dict literal, or a local mapping built in straight-line code from a
+    literal / `dict(zip(keys, values))` and then filled by item assignments
+    and `update` calls."""
     rets = [n.value for n in own_nodes(f) if isinstance(n, ast.Return)
-            and isinstance(n.value, ast.Dict)]
+            and n.value is not None]
     if len(rets) != 1:
         raise AnalysisError('%s: expected one returned dict' % f.fq)
-    return {k.value: v for k, v in zip(rets[0].keys, rets[0].values)
-            if isinstance(k, ast.Constant)}
+
+    def literal(v):
+        if isinstance(v, ast.Dict) and all(
+                isinstance(k, ast.Constant) for k in v.keys):
+            return {k.value: x for k, x in zip(v.keys, v.values)}
+        if isinstance(v, ast.Call) and isinstance(
+                v.func, ast.Name) and v.func.id == 'dict' and len(
+                v.args) == 1 and not v.keywords and isinstance(
+                v.args[0], ast.Call) and isinstance(
+                v.args[0].func, ast.Name) and v.args[0].func.id == 'zip' \
+                and len(v.args[0].args) == 2 and all(isinstance(
+                    a, (ast.Tuple, ast.List)) for a in v.args[0].args) and \
+                len(v.args[0].args[0].elts) == len(v.args[0].args[1].elts) \
+                and all(isinstance(k, ast.Constant)
+                        for k in v.args[0].args[0].elts):
+            return {k.value: x for k, x in zip(v.args[0].args[0].elts,
+                                               v.args[0].args[1].elts)}
+        return None
+
+    d = literal(rets[0])
+    if d is not None:
+        return d
+    if not isinstance(rets[0], ast.Name):
+        raise AnalysisError('%s: expected one returned dict' % f.fq)
+    name, d = rets[0].id, None
+    for st in f.body:
+        touches = any(isinstance(x, ast.Name) and x.id == name
+                      for x in ast.walk(st))
+        if not touches:
+            continue
+        if isinstance(st, ast.Assign) and len(st.targets) == 1 and isinstance(
+                st.targets[0], ast.Name) and st.targets[0].id == name:
+            d = literal(st.value)
+            if d is None:
+                break
+            continue
+        if d is None:
+            break
+        if isinstance(st, ast.Assign) and len(st.targets) == 1 and isinstance(
+                st.targets[0], ast.Subscript) and isinstance(
+                st.targets[0].value, ast.Name) and st.targets[
+                0].value.id == name and isinstance(
+                st.targets[0].slice, ast.Constant):
+            d[st.targets[0].slice.value] = st.value
+            continue
+        if isinstance(st, ast.Expr) and isinstance(
+                st.value, ast.Call) and isinstance(
+                st.value.func, ast.Attribute) and st.value.func.attr == \
+                'update' and isinstance(st.value.func.value, ast.Name) and \
+                st.value.func.value.id == name:
+            ok = True
+            for a in st.value.args:
+                lit = literal(a)
+                if lit is None:
+                    ok = False
+                else:
+                    d.update(lit)
+            for k in st.value.keywords:
+                if k.arg is None:
+                    ok = False
+                else:
+                    d[k.arg] = k.value
+            if ok:
+                continue
+            d = None
+            break
+        if isinstance(st, ast.Return):
+            continue
+        d = None
+        break
+    if d is None:
+        raise AnalysisError('%s: the construction of the returned mapping '
+                            '`%s` was not followed' % (f.fq, name))
+    return d
 
 
 def _local_value(f, name):
@@ -301,8 +377,19 @@ def rule_fast(ctx):
     fr = p.func(OPERAND, 'fast_range2parts')
     names = []
     for n in own_nodes(fr):
-        if isinstance(n, ast.For) and isinstance(n.iter, ast.Tuple):
-            names = [e.id for e in n.iter.elts if isinstance(e, ast.Name)]
+        if not isinstance(n, ast.For):
+            continue
+        it_ = n.iter
+        if isinstance(it_, ast.Name):
+            # the list kept in a module-level constant
+            mv = fr.module.assigns.get(it_.id) or []
+            if len(mv) == 1:
+                it_ = mv[0]
+        if isinstance(it_, (ast.Tuple, ast.List)):
+            cand = [e.id for e in it_.elts if isinstance(e, ast.Name)]
+            if len(cand) >= 3 and all(
+                    p.try_func(OPERAND, c_) is not None for c_ in cand):
+                names = cand
     if len(names) < 3:
         raise AnalysisError('fast_range2parts: list of fast paths not found')
     for nm in names:
@@ -546,15 +633,35 @@ def rule_quote(ctx):
                         if c not in "'" and c.isprintable())
     bsi = p.func(OPERAND, '_build_sheet_id')
     # the writer's predicate
+    # the statement that wraps the sheet name in quotes (`"'%s'" % sheet`,
+    # in any formatting spelling, assigned or returned) and the condition
+    # under which it runs - nested `if` or guard clauses alike
+    from ..util import template_of, path_conditions
     quoting = None
+
+    def arms(e, conds):
+        """(expression, conditions) for the arms of conditional expressions."""
+        if isinstance(e, ast.IfExp):
+            yield from arms(e.body, conds + [(e.test, True)])
+            yield from arms(e.orelse, conds + [(e.test, False)])
+        else:
+            yield e, conds
+
     for n in own_nodes(bsi):
-        if isinstance(n, ast.If):
-            for s in n.body:
-                if isinstance(s, ast.Assign) and isinstance(
-                        s.value, ast.BinOp) and isinstance(
-                        s.value.left, ast.Constant) and \
-                        s.value.left.value == "'%s'":
-                    quoting = n.test
+        if isinstance(n, (ast.Assign, ast.Return)) and n.value is not None:
+            for e_, extra in arms(n.value, []):
+                t_ = template_of(e_)
+                if not (t_ and t_[0] == "'{}'" and len(t_[1]) == 1):
+                    continue
+                arg = {x.id for x in ast.walk(t_[1][0])
+                       if isinstance(x, ast.Name)}
+                pos = [(c, pol) for c, pol in path_conditions(bsi, n) + extra
+                       if arg & {x.id for x in ast.walk(c)
+                                 if isinstance(x, ast.Name)}]
+                if len(pos) == 1:
+                    quoting = pos[0][0] if pos[0][1] else ast.copy_location(
+                        ast.UnaryOp(op=ast.Not(), operand=pos[0][0]),
+                        pos[0][0])
     rr.instances += 1
     if quoting is None:
         raise AnalysisError('_build_sheet_id: quoting branch not found')
